@@ -9,6 +9,7 @@ import (
 	"bytes"
 	"encoding/binary"
 	"fmt"
+	"os"
 	"reflect"
 	"runtime"
 	"sort"
@@ -653,19 +654,26 @@ func codecs(c *vm.Ctx, r *vm.Rand, G, rounds int) {
 		fs = append(fs, reflect.StructField{Name: "Tail", Type: reflect.TypeOf(""), Tag: `nbt:"tail"`})
 		types[i] = reflect.StructOf(fs)
 	}
+	// types of more shapes (embedded, nested, pointer, slice of structs, omitempty, list), new in every call as well
+	rich, richInner := codecsRichTypes(call, 8)
 	codecsTypesMu.Lock()
 	freshTypes := true
-	for _, t := range types {
-		if codecsTypesSeen[t] {
-			freshTypes = false
+	for _, ts := range [][]reflect.Type{types, rich, richInner} {
+		for _, t := range ts {
+			if codecsTypesSeen[t] {
+				freshTypes = false
+			}
+			codecsTypesSeen[t] = true
 		}
-		codecsTypesSeen[t] = true
 	}
 	codecsTypesMu.Unlock()
+	// packets every goroutine packs (nobody writes them)
+	shared := newSharedPackets(call)
 	var wg, start sync.WaitGroup
 	start.Add(1)
 	var bad int32
 	var nReused, nFailedWrites, nBrokenReads int64
+	var nFramesJudged, nSharedPacked, nRich, nSameName int64
 	// what a replay needs: the run (seed, shard and mode fix the sequence of calls), the call, its size, and where it was seen
 	cwit := func(g, seq int, more map[string]any) map[string]any {
 		w := map[string]any{"seed": c.Seed, "shard": c.Shard, "codecs_call": call, "goroutines": G, "rounds": rounds, "goroutine": g, "seq": seq,
@@ -695,10 +703,15 @@ func codecs(c *vm.Ctx, r *vm.Rand, G, rounds int) {
 			var reuseWant []byte
 			var reuseID int32
 			reused, failedWrites, brokenReads := 0, 0, 0
+			framesJudged, sharedPacked, richDone, sameName := 0, 0, 0, 0
 			defer func() {
 				atomic.AddInt64(&nReused, int64(reused))
 				atomic.AddInt64(&nFailedWrites, int64(failedWrites))
 				atomic.AddInt64(&nBrokenReads, int64(brokenReads))
+				atomic.AddInt64(&nFramesJudged, int64(framesJudged))
+				atomic.AddInt64(&nSharedPacked, int64(sharedPacked))
+				atomic.AddInt64(&nRich, int64(richDone))
+				atomic.AddInt64(&nSameName, int64(sameName))
 			}()
 			for seq := 0; seq < rounds; seq++ {
 				if atomic.LoadInt32(&bad) != 0 {
@@ -726,6 +739,37 @@ func codecs(c *vm.Ctx, r *vm.Rand, G, rounds int) {
 					c.Violation("codecs/pack-error", err.Error(), cwit(g, seq, map[string]any{"threshold": th, "size": n}))
 					atomic.StoreInt32(&bad, 1)
 					return
+				}
+				// what went to the writer, read by an independent reader: one frame, nothing behind it, this packet
+				if msg := judgeFrame(w.buf.Bytes(), th, p.ID, want); msg != "" {
+					c.Violation("codecs/frame-on-the-wire", fmt.Sprintf("goroutine %d seq %d threshold %d: %s", g, seq, th, msg), cwit(g, seq, mergeWit(map[string]any{"threshold": th, "size": n}, frameWitness(w.buf.Bytes()))))
+					atomic.StoreInt32(&bad, 1)
+					return
+				}
+				framesJudged++
+				if seq%6 == 4 {
+					// a packet that the other goroutines pack too, right now: each to a writer and with a threshold of its own
+					k := lr.Intn(len(shared))
+					sth := []int{-1, 0, 32, 256}[lr.Intn(4)]
+					pp := shared[k].p // what Conn.WritePacket receives: a copy of the struct, the payload bytes are the shared ones
+					sw := &spyWriter{share: share, failAfter: -1}
+					var back pk.Packet
+					err := pp.Pack(sw, sth)
+					msg := ""
+					if err == nil {
+						msg = judgeFrame(sw.buf.Bytes(), sth, shared[k].id, shared[k].want)
+						err = back.UnPack(bytes.NewReader(sw.buf.Bytes()), sth)
+					}
+					if err == nil && msg == "" && (back.ID != shared[k].id || !bytes.Equal(back.Data, shared[k].want)) {
+						msg = "UnPack of what this goroutine packed gives another id or payload"
+					}
+					if err != nil || msg != "" {
+						c.Violation("codecs/shared-packet/packed-by-many", fmt.Sprintf("goroutine %d seq %d threshold %d, packet of %d bytes that %d goroutines pack at the same time: err=%v %s", g, seq, sth, len(shared[k].want), G, err, msg),
+							cwit(g, seq, mergeWit(map[string]any{"threshold": sth, "shared_packet": k, "size": len(shared[k].want)}, frameWitness(sw.buf.Bytes()))))
+						atomic.StoreInt32(&bad, 1)
+						return
+					}
+					sharedPacked++
 				}
 				if lr.Intn(50) == 0 && w.buf.Len() > 1 {
 					// a stream that ends early: UnPack leaves through one of its error paths while it holds a pooled buffer
@@ -826,6 +870,35 @@ func codecs(c *vm.Ctx, r *vm.Rand, G, rounds int) {
 					atomic.StoreInt32(&bad, 1)
 					return
 				}
+				// types of more shapes; every fifth step all goroutines are on the same one (its first use is contended:
+				// the type itself, the inner type behind its nested, pointer and slice members)
+				if seq%5 == 3 || seq%5 == 1 {
+					ri := seq / 5 % len(rich)
+					if seq%5 == 1 {
+						ri = (g + seq) % len(rich)
+					}
+					if msg := richRoundTrip(rich[ri], g, seq); msg != "" {
+						c.Violation("codecs/cross-talk/typed-cache-nested-and-embedded", fmt.Sprintf("goroutine %d seq %d rich type %d of call %d: %s", g, seq, ri, call, msg), cwit(g, seq, map[string]any{"rich_type": ri, "type": rich[ri].String()}))
+						atomic.StoreInt32(&bad, 1)
+						return
+					}
+					richDone++
+				}
+				// two types of one name, used side by side
+				if seq%4 == 2 {
+					fns := [2]func(int, int) string{sameNameA, sameNameB}
+					first := (g + seq/4) % 2 // half of the goroutines meet the one type first, half the other
+					msg := fns[first](g, seq)
+					if msg == "" {
+						msg = fns[1-first](g, seq)
+					}
+					if msg != "" {
+						c.Violation("codecs/cross-talk/typed-cache-same-type-name", fmt.Sprintf("goroutine %d seq %d: %s", g, seq, msg), cwit(g, seq, nil))
+						atomic.StoreInt32(&bad, 1)
+						return
+					}
+					sameName++
+				}
 				// delayed re-verification: retained pooled memory only shows later
 				if len(keep) > 24 {
 					k := keep[0]
@@ -850,7 +923,29 @@ func codecs(c *vm.Ctx, r *vm.Rand, G, rounds int) {
 	wg.Wait()
 	c.EvalN(int64(G*rounds*3), vm.HashStr("codecs", fmt.Sprint(G, rounds, r.Uint64())), true)
 	if atomic.LoadInt32(&bad) == 0 {
+		// everybody has returned: packing read the shared packets, it must have left them as they were
+		for k := range shared {
+			if msg := shared[k].unchanged(); msg != "" {
+				c.Violation("codecs/shared-packet/changed-by-packing", fmt.Sprintf("a packet of %d bytes (capacity %d) that %d goroutines packed at the same time: %s", len(shared[k].want), len(shared[k].backing), G, msg),
+					cwit(-1, -1, map[string]any{"shared_packet": k, "size": len(shared[k].want)}))
+				atomic.StoreInt32(&bad, 1)
+			}
+		}
+	}
+	if atomic.LoadInt32(&bad) == 0 {
 		c.Cover("codecs.isolated")
+		if nFramesJudged > 0 {
+			c.Cover("codecs.frame-read-by-independent-reader")
+		}
+		if nSharedPacked > 0 {
+			c.Cover("codecs.one-packet-packed-by-many-at-once")
+		}
+		if nRich > 0 && freshTypes {
+			c.Cover("codecs.type-cache-nested-embedded-pointer-slice")
+		}
+		if nSameName > 0 {
+			c.Cover("codecs.type-cache-two-types-of-one-name")
+		}
 		c.Cover("codecs.case-folded-names")
 		if nReused > 0 {
 			c.Cover("codecs.unpack-into-reused-packet")
@@ -871,13 +966,28 @@ func codecs(c *vm.Ctx, r *vm.Rand, G, rounds int) {
 
 // ---------------------------------------------------------------------------
 
+// only reports whether a section of the run is wanted: all of them, unless VERIF_C20_ONLY names some (a comma
+// separated list; for trying a sub-check against a changed library without waiting for the other sections).
+func only(section string) bool {
+	sel := os.Getenv("VERIF_C20_ONLY")
+	if sel == "" {
+		return true
+	}
+	for _, s := range strings.Split(sel, ",") {
+		if s == section {
+			return true
+		}
+	}
+	return false
+}
+
 func run(c *vm.Ctx) {
 	r := c.Rand("c20")
 	c.EnableParkWatch("deadlock")
 	if c.Mode == "plain" {
 		// the park watch (vm.EnableParkWatch) decides lost wake-ups: all goroutines parked on
 		// synchronisation primitives with nobody left to run.
-		for i := 0; i < c.Scale(160, 3000); i++ {
+		for i := 0; i < c.Scale(160, 3000) && only("stress"); i++ {
 			qk := queueKinds[i%len(queueKinds)]
 			c.Inflight(fmt.Sprintf("stress %s #%d", qk.name, i))
 			c.FlushInflight()
@@ -888,19 +998,20 @@ func run(c *vm.Ctx) {
 			burstOneEach(c, qk, r.Range(2, 12))
 			c.Inflight(fmt.Sprintf("full-queue %s #%d", qk.name, i))
 			fullQueue(c, qk)
+			boundedQueues(c, r, qk, i)
 			typedQueues(c, r, i)
 		}
 		return
 	}
 	sigs := map[uint64]bool{}
-	for i := 0; i < c.Scale(3000, 100000); i++ {
+	for i := 0; i < c.Scale(3000, 100000) && only("history"); i++ {
 		c.Inflight(fmt.Sprintf("history #%d", i))
 		history(c, r, i, sigs)
 	}
 	runtime.GOMAXPROCS(16)
 	c.CoverN("history.distinct-interleaving-signatures", int64(len(sigs)))
 	c.Note("distinct_interleaving_signatures_shard0", len(sigs))
-	for i := 0; i < c.Scale(40, 800); i++ {
+	for i := 0; i < c.Scale(40, 800) && only("stress"); i++ {
 		qk := queueKinds[i%len(queueKinds)]
 		c.Inflight(fmt.Sprintf("stress %s #%d", qk.name, i))
 		stress(c, r, qk, r.Range(1, 8), r.Range(1, 8), r.Range(1, 500), i%3 == 0)
@@ -908,23 +1019,24 @@ func run(c *vm.Ctx) {
 		closeWithParked(c, qk, r.Range(1, 16))
 		c.Inflight(fmt.Sprintf("burst-one-each %s #%d", qk.name, i))
 		burstOneEach(c, qk, r.Range(2, 12))
+		boundedQueues(c, r, qk, i)
 		typedQueues(c, r, i)
 	}
-	for i := 0; i < c.Scale(6, 120); i++ {
+	for i := 0; i < c.Scale(6, 120) && only("botecho"); i++ {
 		botEcho(c, r)
 		botEchoParallel(c, r)
 	}
-	for i := 0; i < c.Scale(8, 160); i++ {
+	for i := 0; i < c.Scale(8, 160) && only("codecs"); i++ {
 		c.Inflight("codecs")
 		codecs(c, r, r.Range(16, 64), c.Pick(60, 200))
 	}
-	for i := 0; i < c.Scale(6, 120); i++ {
+	for i := 0; i < c.Scale(6, 120) && only("independent"); i++ {
 		c.Inflight("independent")
 		independent(c, r, 16, c.Pick(40, 120))
 	}
-	for i := 0; i < c.Scale(40, 800); i++ {
+	for i := 0; i < c.Scale(40, 800) && only("playerlist"); i++ {
 		c.Inflight("playerlist")
-		switch capacity := []int{1, 2, 10, 25}[i%4]; capacity {
+		switch capacity := []int{1, 2, 10, 25, 0}[i%5]; capacity {
 		case 25:
 			// more than ten online while clients come and go (a status sample holds at most 10): 12 joiners keeping
 			// up to 3 clients each in a list of 25
